@@ -36,6 +36,11 @@ type serverApp struct {
 }
 
 func (a *serverApp) standardValidator(source, key string) bool {
+	if source == "." || source == ".." {
+		// Not names of a source: as a directory name (see newStage) they would
+		// denote the stage / final / log roots themselves or their parent
+		return false
+	}
 	if len(a.conf.Sources) > 0 {
 		if matched, err := regexp.MatchString(`^[a-z0-9\.\-/]+$`, source); err != nil || !matched {
 			return false
